@@ -5,8 +5,8 @@ from . import base
 ID = 'C03'
 LEVEL = 'exploration'
 PLAN = {
-    'quick': [('synth', 26000), ('synth_reuse', 5000), ('synth_cli_solution', 3000), ('shipped', 800)],
-    'thorough': [('synth', 1000000), ('synth_reuse', 200000), ('synth_cli_solution', 100000), ('shipped', 36000)],
+    'quick': [('synth', 26000), ('synth_reuse', 5000), ('synth_cli_solution', 3000), ('shipped', 640), ('shipped_after', 320)],
+    'thorough': [('synth', 1000000), ('synth_reuse', 200000), ('synth_cli_solution', 100000), ('shipped', 28000), ('shipped_after', 12000)],
 }
 DEADLINE = {'quick': 200, 'thorough': 3300}
 PROBES = ['solution-file-rewritten-over-older-one', 'store-reused-after-edit', 'line-reattempted', 'partial-solution-checked', 'prompt-interleaved-with-computation']
@@ -90,9 +90,9 @@ def evaluate(case, engine, acc=None):
 
 
 def run_one(engine, seed, acc, tier):
-    if engine == 'shipped':
+    if engine in ('shipped', 'shipped_after'):
         from . import shipped_props
-        return shipped_props.run_one(ID, seed, acc, tier)
+        return shipped_props.run_one(ID, seed, acc, tier, level='after' if engine == 'shipped_after' else None)
     rng = core.Rng(core.h64('c03', seed))
     case = gen.gen_case(seed, clean=rng.chance(0.45), defaults=(engine == 'synth' and rng.chance(0.12)))
     if case['sched'][0] is None or rng.chance(0.5):
@@ -113,7 +113,7 @@ def run_one(engine, seed, acc, tier):
 
 
 def replay(rec):
-    if rec.get('engine') == 'shipped':
+    if str(rec.get('engine', '')).startswith('shipped'):
         from . import shipped_props
         return shipped_props.replay(ID, rec)
     return evaluate(rec['case'], rec.get('engine'))
